@@ -354,6 +354,9 @@ def execute(scenario, tape=None, keep_events=False):
                     ("33-bytes-zero-prefixed", b"\x00" + bytes(key)),
                     ("40-bytes-zero-prefixed", bytes(8) + bytes(key)),
                     ("31-bytes", bytes(key)[1:]),
+                    ("33-bytes-trailing-01", bytes(key) + b"\x01"),
+                    ("33-bytes-trailing-00", bytes(key) + b"\x00"),
+                    ("64-bytes-key-twice", bytes(key) * 2),
                     ("empty", b""),
                 ]
                 if k + N < 2**256:
